@@ -51,6 +51,12 @@ CHECKS = {
  "C15": (EX, "The TLC-enumerated families are replayed by six runner binaries (default, index-positions, prohibit-unsafe, both, utf16, no-std alloc) and every observation record must equal the default build's, which TLC judges against ESSem; the exhaustive token-string families of C08 must compile identically.",
          "exhaustive replay of TLC-enumerated families across six feature builds, default judged by TLC", "5 C15",
          "six builds; the pattern feature (nightly) is covered by C20"),
+ "C19": (MC, "SharedRegex.tla (threads share an immutable program; scratch state belongs to the search) is model-checked by TLC for several thread/query configurations with a vacuity guard; TLC prints every complete interleaving and the runner imposes each on real threads sharing one cold Regex through the gate hook, comparing every result and the program dump with sequential use; plus an ungated 8-thread stress on cold regexes, all query orders on one Regex, and a crate that compiles iff Regex, Match, Error are Send + Sync.",
+         "TLC model checking of the SharedRegex spec + TLC-enumerated interleavings replayed on real threads via the gate hook + auto-trait compile check", "5 C19",
+         "interleavings are imposed at instruction-dispatch granularity; a race inside one dispatch is exercised only by the ungated stress; a race that changes no result is invisible"),
+ "C20": (MC, "Searcher.tla, the std Searcher / ReverseSearcher contract as a state machine, is model-checked for every match sequence on short haystacks under every interleaving of next / next_back; a nightly runner records every step of the real RegexSearcher under five call schedules and the results of eleven str methods, and TraceSearcher.tla validates the trace event by event against the specification's own actions with the contract invariants evaluated in every state.",
+         "TLC model checking of the Searcher contract + trace validation of the real searcher against the same actions", "5 C20",
+         "the match sequence given to the specification is the engine's own find_iter (C01/C09 judge it); needs the sandbox's nightly toolchain"),
  "C07": (EX, "Every compile of the C08 exploration must return (panics are caught per case, process deaths and watchdog expiries are attributed to their case), and Limits.tla states the resource contract for adversarially large patterns (nesting to 10^5-10^6, 10^6 groups/loops/alternatives/characters, counts to 10^23, nested exact counts), which the runner expands and compiles in child processes.",
          "TLC-enumerated short strings + TLA+ resource-limit families replayed under a watchdog in child processes", "5 C07",
          "totality over arbitrarily long inputs is sampled at the listed sizes, not exhausted; watchdog 20 s / 60 s per compile call"),
